@@ -160,8 +160,15 @@ class NormLIAMacro(Macro):
         return Thm(hol_term.Eq(goal, from_int_la(to_la(goal))))
 
     def get_proof_term(self, args, prevs) -> ProofTerm:
+        # Prove exactly the equation that eval reports: both sides have the
+        # same polynomial normal form.
         goal = args[0]
-        return verit_conv.norm_lia_conv().get_proof_term(goal)
+        rhs = from_int_la(to_la(goal))
+        pt1 = refl(goal).on_rhs(integer.simp_full())
+        pt2 = refl(rhs).on_rhs(integer.simp_full())
+        if pt1.rhs != pt2.rhs:
+            raise VeriTException("norm_lia", "cannot normalize %s" % goal)
+        return pt1.transitive(pt2.symmetric())
 
 
 
